@@ -28,12 +28,17 @@ FACTORY_MODULES = ("draw_components.factory_draw_components", "draw_components.f
 
 
 def check(model: Model, rep: Report, tier: str):
-    w1(model, rep)
+    with rep.isolated():
+        w1(model, rep)
     from .c04 import width_rule
-    width_rule(model, rep, "C18.W2")
-    w3(model, rep)
-    w4(model, rep)
-    w5(model, rep)
+    with rep.isolated():
+        width_rule(model, rep, "C18.W2")
+    with rep.isolated():
+        w3(model, rep)
+    with rep.isolated():
+        w4(model, rep)
+    with rep.isolated():
+        w5(model, rep)
 
 
 # ---------------------------------------------------------------------------------------------
